@@ -618,7 +618,8 @@ pub struct KnownFindings {
 }
 
 pub fn load_known_findings() -> KnownFindings {
-    let p = "/verif/known_findings.json";
+    let p = format!("{}/known_findings.json", root());
+    let p = p.as_str();
     let mut open = vec![];
     if let Ok(s) = std::fs::read_to_string(p) {
         if let Ok(v) = serde_json::from_str::<Value>(&s) {
@@ -656,9 +657,9 @@ pub fn finish(mut rep: Report, tier: Tier, seed: u64, wall_s: f64) -> i32 {
     let mut replay_paths = vec![];
     for v in real.iter().take(5) {
         let h = fx_hash(&(v.key.as_str(), v.replay.to_string()));
-        let path = format!("/verif/replays/{}-{:016x}.json", rep.property, h);
+        let path = format!("{}/replays/{}-{:016x}.json", root(), rep.property, h);
         let body = json!({"property": rep.property, "key": v.key, "what": v.what, "replay": v.replay});
-        let _ = std::fs::create_dir_all("/verif/replays");
+        let _ = std::fs::create_dir_all(format!("{}/replays", root()));
         let _ = std::fs::write(&path, serde_json::to_string_pretty(&body).unwrap());
         println!("VIOLATION property={} replay={}", rep.property, path);
         println!("  {}", v.what.replace('\n', "\n  "));
@@ -698,8 +699,8 @@ pub fn finish(mut rep: Report, tier: Tier, seed: u64, wall_s: f64) -> i32 {
         "wall_s": wall_s,
         "violations": nviol,
     });
-    let _ = std::fs::create_dir_all("/verif/evidence");
-    std::fs::write(format!("/verif/evidence/{}.json", rep.property), serde_json::to_string_pretty(&ev).unwrap()).expect("write evidence");
+    let _ = std::fs::create_dir_all(format!("{}/evidence", root()));
+    std::fs::write(format!("{}/evidence/{}.json", root(), rep.property), serde_json::to_string_pretty(&ev).unwrap()).expect("write evidence");
     println!(
         "{} tier={} level={} violations={} wall={:.1}s exit={}",
         rep.property,
@@ -710,4 +711,9 @@ pub fn finish(mut rep: Report, tier: Tier, seed: u64, wall_s: f64) -> i32 {
         code
     );
     code
+}
+
+/// Root of the verification tree: `$VERIF_ROOT` (set by bin/check to the tree it lives in), else /verif.
+pub fn root() -> String {
+    std::env::var("VERIF_ROOT").unwrap_or_else(|_| "/verif".into())
 }
